@@ -99,8 +99,36 @@ func propC14(ch core.Chooser, st *core.Stats) error {
 			if err := core.Safe(func() error { return db.Put(kb, vb) }); err != nil {
 				return fmt.Errorf("Put failed: %v", err)
 			}
-			scribble(kb)
-			scribble(vb)
+			// the caller reuses its buffers: both are overwritten, or only the value buffer (a
+			// later lookup with the intact key bytes must not see the new buffer contents), and
+			// the overwritten key bytes name a key that was never stored
+			switch ch.Int("scribble_mode", 0, 2) {
+			case 0:
+				scribble(kb)
+				scribble(vb)
+			case 1:
+				scribble(vb)
+				var got []byte
+				if err := core.Safe(func() error { var e error; got, e = db.Get([]byte(k)); return e }); err != nil {
+					return fmt.Errorf("Get failed: %v", err)
+				}
+				if string(got) != v || (got == nil) != false {
+					return fmt.Errorf("after the caller overwrote the value buffer it had passed to Put, Get(%s) = %s, want %s", dbx.K(k), dbx.V(string(got)), dbx.V(v))
+				}
+				scribble(kb)
+			default:
+				scribble(kb)
+				scribble(vb)
+				if _, stored := model[string(kb)]; !stored && len(kb) > 0 {
+					var got []byte
+					if err := core.Safe(func() error { var e error; got, e = db.Get(append([]byte{}, kb...)); return e }); err != nil {
+						return fmt.Errorf("Get failed: %v", err)
+					}
+					if got != nil {
+						return fmt.Errorf("after the caller overwrote the key buffer it had passed to Put, Get(<the new buffer contents>) = %s, but that key was never stored", dbx.V(string(got)))
+					}
+				}
+			}
 			model[k] = v
 		case 1:
 			k := key()
